@@ -45,11 +45,20 @@ def render_swtpm(messages, rnd):
         for i in range(0, len(b), 16):
             lines += b" " + b" ".join(f"{x:02X}".encode() for x in b[i:i + 16]) + b" \n"
         return lines
+    crlf = rnd.random() < 0.25          # a log written with CR LF line ends (the scanner's white space includes CR)
+    if crlf:
+        out = out.replace(b"\n", b"\r\n")
+        _hexlines = hexlines
+
+        def hexlines(b):               # noqa: F811
+            return _hexlines(b).replace(b"\n", b"\r\n")
     for i, m in enumerate(messages):
         if rnd.random() < 0.5:
             ctrl = bytes(rnd.randrange(256) for _ in range(rnd.choice([4, 8])))
             out += b" Ctrl Cmd: length %d\n" % len(ctrl) + hexlines(ctrl) + b" Ctrl Rsp: length 4\n" + hexlines(b"\x00\x00\x00\x00")
         out += (b" SWTPM_IO_Read: length %d\n" if i % 2 == 0 else b" SWTPM_IO_Write: length %d\n") % len(m) + hexlines(m)
+    if crlf:
+        out = out.replace(b"\r\n", b"\n").replace(b"\n", b"\r\n")
     return out
 
 
@@ -64,14 +73,14 @@ def run(ctx, replay_case):
     for n in range(hmax + 1):
         for tup in itertools.product(hex_alpha, repeat=n):
             ops.append(("FRONT", "hex", b"".join(tup)))
-    sw_alpha = [b"S", b"W", b"C", b"t", b"0", b"A", b" ", b"\n", b"x"]
+    sw_alpha = [b"S", b"W", b"C", b"t", b"0", b"A", b" ", b"\n", b"x", b"\r"]
     smax = 5 if ctx.tier == "quick" else 6
     for n in range(smax + 1):
         for tup in itertools.product(sw_alpha, repeat=n):
             ops.append(("FRONT", "swtpm", b"".join(tup)))
     # marker-prefixed strings so that the payload states are reached
     for n in range(0, 5 if ctx.tier == "quick" else 6):
-        for tup in itertools.product([b"0", b"F", b" ", b"\n", b"C", b"t", b"S", b"g"], repeat=n):
+        for tup in itertools.product([b"0", b"F", b" ", b"\n", b"C", b"t", b"S", b"g", b"\r"], repeat=n):
             ops.append(("FRONT", "swtpm", b"SWTPM_IO_Read: length 1\n" + b"".join(tup)))
     for a in range(256):
         for b in (0x0d, 0x0a, 0x30, 0x46, 0x66, 0x67, 0x20, 0x80, 0x01, a):
@@ -187,13 +196,29 @@ def run(ctx, replay_case):
         pcap = canon.make_pcapng([p for p in with_runts if p is not None], link=rnd.choice(["ip", "eth"]))
         via.append((data, [("binary", data), ("hex", render_hex(data, rnd)), ("swtpm", render_swtpm(msgs, rnd)), ("pcapng", pcap),
                            ("auto", data), ("auto", render_hex(data, rnd, noise=False)), ("auto", pcap)]))
+    # the front-ends forward type, command code and mode: single commands / responses and faulted streams in warn mode
+    for i in range(20 if ctx.tier == "quick" else 200):
+        pr = M.pair()
+        if not pr:
+            continue
+        (cv, cb, ci), (rv, rb, ri) = pr
+        via.append((cb, [("binary", cb), ("hex", render_hex(cb, rnd)), ("swtpm", render_swtpm([cb], rnd)), ("auto", cb)], "Command", None, "S"))
+        if not ri.get("encrypt"):
+            via.append((rb, [("binary", rb), ("hex", render_hex(rb, rnd)), ("swtpm", render_swtpm([rb], rnd))], "Response", ci["cc"], "S"))
+        bad = bytearray(cb + rb)
+        bad[rnd.randrange(len(bad))] ^= 1 << rnd.randrange(8)
+        bad = bytes(bad)
+        via.append((bad, [("binary", bad), ("hex", render_hex(bad, rnd)), ("swtpm", render_swtpm([bad], rnd))], "Stream", None, "W"))
     vops = []
-    for data, conts in via:
+    for entry in via:
+        data, conts = entry[0], entry[1]
+        tn, ccv, md = (entry[2], entry[3], entry[4]) if len(entry) > 2 else ("Stream", None, "S")
         for front, cont in conts:
-            vops.append(("VIA", front, cont, "Stream", None, "S"))
+            vops.append(("VIA", front, cont, tn, ccv, md))
     vres = core.run_impl(vops)
     k = 0
-    for data, conts in via:
+    for entry in via:
+        data, conts = entry[0], entry[1]
         ref = vres[k]
         for j, (front, cont) in enumerate(conts):
             if vres[k + j] != ref:
